@@ -66,6 +66,13 @@ func vxH_C15_handles() {
 				// must stay positioned on "k" and keep its references
 				h.it.SeekTo([]byte{})
 				h.it.SeekTo(kb)
+				if vxChoose(2) == 1 {
+					// the iterator is closed right away while its snapshot
+					// stays open: the snapshot must keep its own references
+					h.it.Close()
+					h.it = nil
+					h.kind -= 2 // from now on a plain (store) snapshot handle
+				}
 			}
 		}
 		vxAssert("handle-open-ok", err == nil)
